@@ -14,7 +14,7 @@ from optiland.rays import BaseRays, RealRays, ParaxialRays
 from optiland.materials import BaseMaterial
 from optiland.physical_apertures import BaseAperture
 from optiland.scatter import BaseBSDF
-from optiland.geometries import BaseGeometry
+from optiland.geometries import BaseGeometry, EvenAsphere
 from optiland.coatings import BaseCoating, FresnelCoating
 
 
@@ -183,15 +183,23 @@ class Surface:
         t = -rays.z
         rays.propagate(t)
 
+        # vertex radius: the r^2 term of an even asphere adds 2 * c[0] to the
+        # vertex curvature
+        radius = self.geometry.radius
+        if isinstance(self.geometry, EvenAsphere) and len(self.geometry.c) \
+                and self.geometry.c[0] != 0:
+            curvature = np.float64(1 / radius + 2 * self.geometry.c[0])
+            radius = np.inf if curvature == 0 else 1 / curvature
+
         if self.is_reflective:
             # reflect (derived from paraxial equations when n'=-n)
-            rays.u = -rays.u - 2 * rays.y / self.geometry.radius
+            rays.u = -rays.u - 2 * rays.y / radius
 
         else:
             # surface power
             n1 = self.material_pre.n(rays.w)
             n2 = self.material_post.n(rays.w)
-            power = (n2 - n1) / self.geometry.radius
+            power = (n2 - n1) / radius
 
             # refract
             rays.u = 1 / n2 * (n1 * rays.u - rays.y * power)
